@@ -338,6 +338,12 @@ def sweep(ctx, n):
                     # (audit hardening) the recorded findings non-finite:Dipole:* / non-finite:Sphere:zero-size:* are about observers at
                     # denormal distance (r**5 underflows, |obs| < ~1e-65); a non-finite value at any OTHER observer must not inherit
                     # that key, or a new defect would be printed as KNOWN-FINDING
+                    at_pos = [j for j in bad if c["cls"] == "Sphere" and all(x == 0 for x in c["obs"][j])]
+                    if at_pos:  # exactly AT the position of a sphere without size: no distance underflows there, the value is 0
+                        fails.append({"key": f"non-finite:{c['cls']}:{c['variant']}:{f}:at-its-position",
+                                      "desc": f"get{f} of a Sphere of diameter 0 is not finite exactly at the sphere's own position",
+                                      "replay": {"class": c["cls"], "kw": c["kw"], "observer": c["obs"][at_pos[0]], "field": f}})
+                    bad = [j for j in bad if j not in at_pos]
                     far = [j for j in bad if max(abs(x) for x in c["obs"][j]) >= 1e-60]
                     if far:
                         fails.append({"key": f"non-finite:{c['cls']}:{c['variant']}:{f}:ordinary-distance",
